@@ -35,6 +35,24 @@ Theorem C08_lookup_spec : forall f name args nx s e,
 Proof. exact lookup_spec. Qed.
 Print Assumptions C08_lookup_spec.
 
+(* ---- "the dynamic facts of name/N in order": assert_fact puts the new fact at the end (or the
+   front) of name/N and touches nothing else; a call with distinct unbound variables answers every
+   stored fact, in the stored order *)
+Theorem C08_assert_fact_get : forall m name vals app k,
+  db_get (assert_fact m name vals app) k =
+  if dbkey_eqb k (name, length vals)
+  then (if app then db_get m (name, length vals) ++ [vals] else vals :: db_get m (name, length vals))
+  else db_get m k.
+Proof. exact assert_fact_get. Qed.
+Print Assumptions C08_assert_fact_get.
+
+Theorem C08_fact_answers_in_order : forall fs args s,
+  Forall (fun f => length f = length args) fs -> NoDup args ->
+  (forall v, In v args -> slookup s v = None) ->
+  map (fun s' => map (slookup s') args) (fact_answers fs args s) = map (map Some) fs.
+Proof. exact fact_answers_fresh. Qed.
+Print Assumptions C08_fact_answers_in_order.
+
 (* ---- "an unknown predicate simply fails" (no exception) *)
 Theorem C08_unknown_predicate_fails : forall f name args nx s e,
   db_get (e_db e) (name, length args) = [] ->
